@@ -242,7 +242,7 @@ func init() {
 	eng.Register(&eng.Monitor{
 		ID: "C01", Level: "exploration",
 		Rule: "cases = (kind, ring type, logN, prime bit sizes, prime position in its size class); inside a case every table operation x input pattern x extreme-lane placement is evaluated against the exact model. distinct key = (op, ring type, logN, bit size, position, pattern, lane); non-trivial = the input contains an extreme value of the documented domain (q-1, 2q-1, 2^64-1, top of lazy range) or the op is lazy/accumulating or the case is an NTT/automorphism/monomial identity. " +
-			"Extension families: scal = exported scalar reductions called directly on (bit size, position) primes with boundary values (0, q-1, q, 2q-1, multiples of q next to 2^64); vecx = every SubRing kernel x layout (len(p1) in {8, N+8, 2N+8} with longer p2/p3, sub-slices with guard words, out=p1, out=p2, p1=p2) plus ZeroVec/MaskVec; nttx = NTT tables / primitive roots / factor lists, in-place transforms, exported free transforms with a dimension N/2, N/4 below the ring's own (convolution theorem + differential against a ring of that degree); ringx = every exported ring.Ring method of operations.go / scalar.go / automorphism.go / conjugate_invariant.go / ntt.go on 1..8 RNS moduli (61-bit next to 20-bit) at every level, outputs allocated at exactly the level and over-allocated (rows above the level must stay intact), dimension switch, fold/unfold, derived Standard/ConjugateInvariant rings; qpx = every exported ringqp.Ring method at every (levelQ, levelP) incl. levelP=-1, two Q/P splits; refuse = documented constructor refusals; race/checkptr (thorough) = a sample of all of these in the -race worker (checkptr). distinct keys carry (family, entry point or layout, ring type, logN, bit sizes, level); all of them are non-trivial by construction (boundary layouts / levels / lazy ranges).",
+			"Extension families: quot = every Barrett/Montgomery product (scalar functions and SubRing kernels) on 2^15 lanes per op whose exact product is a multiple of q plus a tiny residue 1..64 with operands at the top of their domain (worst case of the quotient estimate), large primes at every position; scal = exported scalar reductions called directly on (bit size, position) primes with boundary values (0, q-1, q, 2q-1, multiples of q next to 2^64); vecx = every SubRing kernel x layout (len(p1) in {8, N+8, 2N+8} with longer p2/p3, sub-slices with guard words, out=p1, out=p2, p1=p2) plus ZeroVec/MaskVec; nttx = NTT tables / primitive roots / factor lists, in-place transforms, exported free transforms with a dimension N/2, N/4 below the ring's own (convolution theorem + differential against a ring of that degree); ringx = every exported ring.Ring method of operations.go / scalar.go / automorphism.go / conjugate_invariant.go / ntt.go on 1..8 RNS moduli (61-bit next to 20-bit) at every level, outputs allocated at exactly the level and over-allocated (rows above the level must stay intact), dimension switch, fold/unfold, derived Standard/ConjugateInvariant rings; qpx = every exported ringqp.Ring method at every (levelQ, levelP) incl. levelP=-1, two Q/P splits; refuse = documented constructor refusals; race/checkptr (thorough) = a sample of all of these in the -race worker (checkptr). distinct keys carry (family, entry point or layout, ring type, logN, bit sizes, level); all of them are non-trivial by construction (boundary layouts / levels / lazy ranges).",
 		Cases: cases,
 		Assumptions: []string{
 			"model arithmetic (bits.Mul64/Div64, math/big) is correct",
